@@ -39,13 +39,14 @@ type OpProfile struct {
 	PVarNull    float64
 	MaxRoots    int
 	Kind        ast.Operation
-	Pool        int // id pool size for node roots
+	PArgsAlways bool // never omit optional arguments
+	Pool        int  // id pool size for node roots
 	IDStyle     int
 }
 
 func DefaultOpProfile() OpProfile {
-	return OpProfile{Depth: 4, Width: 4, PAlias: 0.15, PVar: 0.3, PFragment: 0.15, PInline: 0.15, PDirective: 0.08, PDirVar: 0.3,
-		PNodeRoot: 0.12, PTypename: 0.15, PExplicitID: 0.25, POpName: 0.3, PMultiOp: 0.05, PVarDefault: 0.25, PVarOmit: 0.3, PVarNull: 0.1,
+	return OpProfile{Depth: 4, Width: 3, PAlias: 0.08, PVar: 0.3, PFragment: 0.06, PInline: 0.06, PDirective: 0.03, PDirVar: 0.15,
+		PNodeRoot: 0.05, PTypename: 0.1, PExplicitID: 0.2, POpName: 0.3, PMultiOp: 0.05, PVarDefault: 0.15, PVarOmit: 0.3, PVarNull: 0.1,
 		MaxRoots: 3, Kind: ast.Query, Pool: 5}
 }
 
@@ -321,7 +322,7 @@ func (g *opGen) arguments(defs ast.ArgumentDefinitionList) string {
 	var parts []string
 	for _, ad := range defs {
 		required := ad.Type.NonNull && ad.DefaultValue == nil
-		if !required && g.chance(0.35) {
+		if !required && !g.p.PArgsAlways && g.chance(0.35) {
 			continue
 		}
 		g.tag("args")
@@ -342,11 +343,13 @@ func (g *opGen) arguments(defs ast.ArgumentDefinitionList) string {
 func (g *opGen) variableFor(t *ast.Type) string {
 	g.tag("var")
 	typ := t.String()
+	vt := *t
 	if !t.NonNull && g.chance(0.2) {
 		typ += "!"
+		vt.NonNull = true
 		g.tag("var-stricter")
 	}
-	lit, val := g.value(t, 2, false)
+	lit, val := g.value(&vt, 2, false)
 	def := ""
 	nonNull := strings.HasSuffix(typ, "!")
 	if !nonNull && g.chance(g.p.PVarDefault) {
